@@ -53,6 +53,24 @@ def validated_before_apply(ctx, p):
         for i, s in enumerate(hv):
             if hn:
                 lib.result_guards(ctx, p + 'e validation-result-checked %s #%d' % (hb.path, i), hb, [s], hn[0], 'going on to the next action depends on the outcome of each validate_plan call')
+    # the CRC check is on for EVERY record read in replay: the validate flag travels unchanged from the validation_mode parameter
+    # of enact_logs through Log::read_next into LogReader::new (no "only for the newest log" shortcut)
+    def pure_param(b, o, want):
+        if op_place(o) is None:
+            return False
+        sl = backward_slice(b, [op_place(o)])
+        return sl.params == {want} and not sl.calls and not sl.binops and not sl.fields
+    rn_sites = el.call_sites('log::Log::read_next')
+    ctx.ob(p + 'o0 read_next-site', 'anchor', el.path, 'enact_logs obtains its reader from Log::read_next', len(rn_sites) >= 1, str(rn_sites))
+    for s2 in rn_sites:
+        a = el.term(s2)['a']
+        ctx.ob(p + 'o validate-flag-is-the-mode', 'K4-provenance', el.path, 'the validate argument of Log::read_next is the validation_mode parameter itself (checksums are verified for every log file that is replayed)',
+               len(a) > 1 and pure_param(el, a[1], 2), 'argument: %s' % (core.op_str(a[1]) if len(a) > 1 else '?'), el.loc(s2))
+    rnb = F.body('log::Log::read_next')
+    if rnb:
+        for s2 in rnb.call_sites("log::LogReader::<'a>::new"):
+            a = rnb.term(s2)['a']
+            ctx.ob(p + 'o2 reader-built-with-the-flag', 'K4-provenance', rnb.path, 'Log::read_next builds the LogReader with the validate flag it was given', len(a) > 1 and pure_param(rnb, a[1], 2), '', rnb.loc(s2))
     # sequence check
     for r in rs:
         lib.eq_guarded(ctx, p + 'f sequence-guard', el, r, 'the record is applied in replay only if its id equals last_enacted + 1',
